@@ -19,7 +19,8 @@ from checks import common
 from harness import tlc
 
 CLAUSES = ('Accepted', 'TextIsSplice', 'OnText.struct', 'OnText.pos', 'SameStructure', 'Law.before', 'Law.after',
-           'Law.contains', 'Law.shape', 'G.ModelAgree', 'G.OnText')
+           'Law.contains', 'Law.shape', 'G.ModelAgree', 'G.OnText', 'Derived.loc', 'Derived.bloc', 'Derived.pars',
+           'Derived.parsUnshared', 'Derived.flags', 'Derived.parsText')
 ACTIONS = ('InsertSL', 'InsertML', 'DeleteSL', 'DeleteML', 'ReplaceSL', 'ReplaceML')
 NPROC = 14
 
@@ -61,6 +62,11 @@ def _shard_v(args):
             cands = [x for x in cands if x[2] in CORE_REPL]
         elif ncand is not None:
             rng.shuffle(cands)
+            # half of the draw from spots next to grouping parentheses / before comments (derived extents reach there)
+            hot = H.hot_spots(S)
+            hs = [x for x in cands if hot(x[0], x[1])]
+            co = [x for x in cands if not hot(x[0], x[1])]
+            cands = [x for pair in zip(hs, co) for x in pair] + hs[len(co):] + co[len(hs):]
             # candidates outside the domain are skipped by the driver: draw until ncand have been carried out
             picked, k = [], 0
             for c in cands:
@@ -144,6 +150,8 @@ def _collect(ctx, validated):
                 first.add(clause)
                 sc = scripts[tid]
                 ev = tr['steps'][step - 1]
+                if clause.startswith('Derived.'):
+                    klass = f"{klass}|{ev.get('dcls', '')}"  # which nodes / accessors went stale, spot vs comments
                 ctx.violation(clause, klass, {
                     'driver': sc['driver'], 'mode': sc['mode'], 'prog': sc.get('prog'), 'variant': sc.get('variant'),
                     'srcseed': sc.get('seed'), 'failing_step': step,
@@ -250,7 +258,9 @@ def run(ctx):
                 'V: token gaps (A between stream tokens, B across comments/newlines, C whole lines between statements) of '
                 '40 corpus programs x 8 layouts (+ exploded multi-line layout) + edge sources (every gap of the multi-line forms of '
                 'decorators / position-less nodes / interleaved fields) x replacements, do/undo and random walks. '
-                'distinct = distinct (kind of the node called on, gap type, insert/delete/replace, single/multi-line)')
+                'Before each edit the derived accessors are read on none / all / ancestors / children of the node called on; after it '
+                'loc, bloc, pars(), pars(shared=False), delimiter flags of every node are compared with a freshly built tree. '
+                'distinct = distinct (kind of the node called on, gap type, insert/delete/replace, single/multi-line, warm mode)')
     ctx.assumptions += [
         'projection (harness/proj.py), tokenize-based domain filter (same non-trivia token sequence) and str splice are trusted',
         'zero-width nodes exist only in the model (no from-scratch parse yields one): named deviation ZeroWidthAtOffsetPoint',
@@ -261,10 +271,12 @@ def run(ctx):
     if 'M' not in phases:
         ctx.assumptions.append('M phase skipped by C11_PHASES')
     elif ctx.quick:
-        _model(ctx, 'OffsetMC', 'OffsetMC', required=ACTIONS, heap='3g')
+        _model(ctx, 'OffsetMC', 'OffsetMC', required=ACTIONS, heap='6g')
+        _model(ctx, 'OffsetMC', 'OffsetMC_cache', required=ACTIONS, heap='6g')
     else:
         _model(ctx, 'OffsetMC', 'OffsetMC_thorough', required=ACTIONS, timeout=2400, heap='6g')
         _model(ctx, 'OffsetMC', 'OffsetMC_n5', required=ACTIONS, timeout=3000, heap='6g')
+        _model(ctx, 'OffsetMC', 'OffsetMC_cache_thorough', required=ACTIONS, timeout=2400, heap='6g')
     # ---- G
     gres, vres = [], []
     if 'G' in phases:
@@ -324,7 +336,7 @@ def replay(ctx, path):
             fact = H.prepare(S, p, q, s['r'])
             if fact is None:
                 raise common.Machinery('replay: recorded splice is no longer in the domain')
-            ev, post = H.do_splice(rec, root, S, p, q, s['r'], s['typ'], fact, warm=True)
+            ev, post = H.do_splice(rec, root, S, p, q, s['r'], s['typ'], fact, warm=s.get('warm', 'all'))
             tr['steps'].append(ev)
             scripts[tr['id']]['script'].append(H._script(S, p, q, s['r'], s['typ'], fact, ev, post))
             cur = post
@@ -370,6 +382,7 @@ def selftest(ctx):
         'nl += 1': {'Law.after'},
         'expText := pre.text': {'TextIsSplice'},
         'm.obs[1].end_col += 1': {'G.ModelAgree', 'G.OnText'},
+        'post.d.live.pars += 1': {'Derived.pars'},
     }
     rc = 0
     for what, must in expect.items():
@@ -382,7 +395,9 @@ def selftest(ctx):
             tr = b['traces'][0]
             i, pre = first_moving(tr)
             ev = tr['steps'][i]
-            if what.startswith('post.liveP'):
+            if what.startswith('post.d.live'):
+                ev['post']['d']['live']['pars'] += 1
+            elif what.startswith('post.liveP'):
                 ev['post']['liveP'] = pre['liveP']
             elif what.startswith('nl'):
                 ev['nl'] += 1
